@@ -137,3 +137,5 @@ func short(s string, n int) string {
 }
 
 func lower(s string) string { return strings.ToLower(s) }
+
+func getenv(k string) string { return os.Getenv(k) }
